@@ -11,6 +11,8 @@ SPEC = dict(
                  reach=["done", "write", "released", "kept", "short-read"], sample_every=1001),
             dict(name="c49_sparse", bounds="2 non-overlapping writes of 1..2 symbolic bytes at independent fully symbolic offsets in [0, 3*4096+8], optional freeDataUpto(t) with fully symbolic t, then hasContigousContentRange([q,q+n)) for n in {0,1,3} and copy(3 bytes at q) at a fully symbolic q",
                  reach=["released-or-kept", "short-read", "full-read", "absent"], sample_every=23),
+            dict(name="c49_far", bounds="as c49_sparse with every offset (writes, release target, probe) = F + d, F case-split over {0, 2^31, 3*2^30, 2^32, 2^32+2^31}, d symbolic in 0..5 (node offsets whose differences do not fit into 31 bits: sparse ranges of a multi-GiB object)",
+                 reach=["released-or-kept", "short-read", "absent"], sample_every=23),
         ],
         thorough=[
             dict(name="c49_window", bounds="as quick with every sequence of 4 operations; " + _W % "",
@@ -18,10 +20,12 @@ SPEC = dict(
             dict(name="c49_page", bounds="as quick with every sequence of 3 operations, (base = 2^40+7 only, as in quick)", reach=["done", "write", "released", "kept", "short-read", "full-read"], sample_every=10001),
             dict(name="c49_tree", bounds="as quick with all 5 sites written in every order, then every sequence of 3 presence queries / freeDataUpto()", reach=["done", "write", "released", "kept", "short-read"], sample_every=20001),
             dict(name="c49_sparse", bounds="as quick with writes of 1..3 bytes, n in {0,1,3,5} and copy(5 bytes at q)", reach=["released-or-kept", "short-read", "full-read", "absent"], sample_every=301),
+            dict(name="c49_far", bounds="as c49_sparse with every offset (writes, release target, probe) = F + d, F case-split over {0, 2^31, 3*2^30, 2^32, 2^32+2^31}, d symbolic in 0..5 (node offsets whose differences do not fit into 31 bits: sparse ranges of a multi-GiB object)",
+                 reach=["released-or-kept", "short-read", "absent"], sample_every=23),
         ]),
     timeout=dict(quick=170, thorough=1500),
     stubs=["Mem::AllocatorProxy: plain heap blocks of the object size", "debugs() disabled"],
     assumptions=["caller contract of stmem.cc: writes never overlap data that is in memory (mem_hdr::write fatal_dump()s otherwise); copy() is asked for a non-empty range whose first byte is in memory (it fatal_dump()s otherwise)",
                  "the set of bytes removed by freeDataUpto() is read off its return value (the new lowest offset): everything below it is gone; that nothing at or after the release offset is below it is asserted"],
-    outside="longer operation sequences, wider windows and longer small writes than stated; c49_window/c49_page use representative base offsets (the code depends on offset differences, offset > 0 and offset >= 0 only), fully symbolic offsets only in c49_sparse; nodes with write_pending set (NodeGet/memNodeWriteComplete); reads starting at an absent byte or on an empty store (fatal by design); MemObject/store_client users of mem_hdr",
+    outside="longer operation sequences, wider windows and longer small writes than stated; c49_window/c49_page use representative base offsets (the code depends on offset differences, offset > 0 and offset >= 0 only), fully symbolic offsets only in c49_sparse, offsets beyond 2^31 only in c49_far; nodes with write_pending set (NodeGet/memNodeWriteComplete); reads starting at an absent byte or on an empty store (fatal by design); MemObject/store_client users of mem_hdr",
 )
